@@ -856,7 +856,7 @@ class EventSource(object):
 
         eventsParser = self.parseEvents()
         while True:  # parse event(s) so far if any
-            result = next(eventParser)
+            result = next(eventsParser)
             if result is not None:
                 eventsParser.close()
                 break
